@@ -577,12 +577,12 @@ func Tgid0(d *Decoded) int64 {
 	return 1
 }
 
-func CaseTerm(h *History, d *Decoded, sched string, obs []Obs, tgid0 int64, double string) string {
+func CaseTerm(h *History, d *Decoded, sched string, obs []Obs, tgid0 int64, double, pl string) string {
 	var os []string
 	for _, o := range obs {
 		os = append(os, o.Term())
 	}
 	return cq.Rec(cq.F("k_tgid0", cq.Z(tgid0)), cq.F("k_owner", cq.Z(InstanceID1)), cq.F("k_owner2", cq.Z(InstanceID2)),
 		cq.F("k_own2", cq.N(uint64(d.NWal))), cq.F("k_buckets", h.BucketsTerm(d)), cq.F("k_clen", ClenTerm(d)),
-		cq.F("k_sched", sched), cq.F("k_trace", EvsTerm(d.Evs)), cq.F("k_obs", cq.List(os)), cq.F("k_double", double))
+		cq.F("k_sched", sched), cq.F("k_trace", EvsTerm(d.Evs)), cq.F("k_obs", cq.List(os)), cq.F("k_double", double), cq.F("k_pl", pl))
 }
